@@ -14,6 +14,12 @@ EDITS = [
  ("recover_keyspaces: max via if", "src/recovery.rs", [("        highest_id = highest_id.max(keyspace_id);", "        if keyspace_id > highest_id {\n            highest_id = keyspace_id;\n        }")]),
  ("maintenance: extra debug log", "src/journal/manager.rs", [("    pub(crate) fn maintenance(&mut self) -> crate::Result<()> {\n", "    pub(crate) fn maintenance(&mut self) -> crate::Result<()> {\n        log::debug!(\"journal maintenance\");\n")]),
  ("commit (tx): prev_key compare via as_ref", "src/tx/write_tx.rs", [("                if let Some(prev_key) = &prev_key {\n                    if item.key.user_key == prev_key {\n                        continue;\n                    }\n                }", "                if prev_key.as_ref() == Some(&item.key.user_key) {\n                    continue;\n                }")]),
+ ("drop: extra log line in the wait loop", "src/db.rs", [("            std::thread::sleep(std::time::Duration::from_micros(10));\n        }\n", "            log::trace!(\"waiting for workers\");\n            std::thread::sleep(std::time::Duration::from_micros(10));\n        }\n")]),
+ ("create_new: comment and log line before the marker", "src/db.rs", [("        // NOTE: Lastly, fsync version marker, which contains the version\n", "        log::trace!(\"writing version marker\");\n        // NOTE: Lastly, fsync version marker, which contains the version\n")]),
+ ("remove_keyspace: seqno drawn via a named counter reference", "src/meta_keyspace.rs", [("        let seqno = self.seqno_generator.next();\n\n        let mut ingestion = self.inner.ingestion()?;\n        {\n            // Remove all config KVs", "        let generator = &self.seqno_generator;\n        let seqno = generator.next();\n\n        let mut ingestion = self.inner.ingestion()?;\n        {\n            // Remove all config KVs")]),
+ ("worker loop: extra log line in the error arm", "src/worker_pool.rs", [("                                    poison_dart.poison();\n", "                                    log::warn!(\"worker stops\");\n                                    poison_dart.poison();\n")]),
+ ("rotate_journal: sealed path bound before use", "src/journal/manager.rs", [("        let (sealed_path, _) = journal_writer.rotate()?;\n", "        let rotated = journal_writer.rotate()?;\n        let sealed_path = rotated.0;\n")]),
+ ("Keyspace::len: count via checked pattern", "src/keyspace/mod.rs", [("            let _ = guard.key()?;\n            count += 1;\n        }\n\n        Ok(count)\n    }\n\n    /// Returns `true` if the keyspace is empty.", "            guard.key()?;\n            count += 1;\n        }\n\n        Ok(count)\n    }\n\n    /// Returns `true` if the keyspace is empty.")]),
  ("mark_range: reorder independent lets", "src/tx/optimistic/conflict_manager.rs", [("        let start = match range.start_bound() {\n            Bound::Included(k) => Bound::Included(k.clone()),\n            Bound::Excluded(k) => Bound::Excluded(k.clone()),\n            Bound::Unbounded => Bound::Unbounded,\n        };\n\n        let end = match range.end_bound() {\n            Bound::Included(k) => Bound::Included(k.clone()),\n            Bound::Excluded(k) => Bound::Excluded(k.clone()),\n            Bound::Unbounded => Bound::Unbounded,\n        };", "        let end = match range.end_bound() {\n            Bound::Included(k) => Bound::Included(k.clone()),\n            Bound::Excluded(k) => Bound::Excluded(k.clone()),\n            Bound::Unbounded => Bound::Unbounded,\n        };\n\n        let start = match range.start_bound() {\n            Bound::Included(k) => Bound::Included(k.clone()),\n            Bound::Excluded(k) => Bound::Excluded(k.clone()),\n            Bound::Unbounded => Bound::Unbounded,\n        };")]),
 ]
 bad = 0
